@@ -275,6 +275,7 @@ pub fn check(case: &Case, _tier: Tier) -> Outcome {
   let mut root_skip = case.root_skip;
   let mut edited_since_last_fc = false;
   let mut stale_or_warm = false;
+  let mut saw_default_in_dependency = false;
   let mut fc_steps = 0;
   for step in &case.history {
     match step {
@@ -288,6 +289,17 @@ pub fn check(case: &Case, _tier: Tier) -> Outcome {
         if graph.module_errors().next().is_some() {
           o.discarded = true;
           return o;
+        }
+        // a default export of a module other than the main entrypoint of the
+        // star re-exported package (reached over the package's own `export *`
+        // chain, or a further entrypoint the graph may or may not use)
+        if built.iter().skip(1).any(|p| {
+          p.rec
+            .exports
+            .iter()
+            .any(|(path, names)| names.contains("default") && path != "/mod.ts")
+        }) {
+          saw_default_in_dependency = true;
         }
         fc_steps += 1;
         let gets_before = cache.gets.borrow().len();
@@ -355,6 +367,18 @@ pub fn check(case: &Case, _tier: Tier) -> Outcome {
   }
   if case.cross_star && case.pkgs.len() >= 2 {
     o.label("cross-package-star-export");
+    // A recorded finding: when package A re-exports everything of package B
+    // (`export * from "jsr:B"`), analysing A asks B's star chain for its
+    // default exports as well; a run that takes A from the cache does not.
+    // Whether a default export behind B's `export *` chain is traced (and
+    // emitted, or diagnosed) therefore depends on the cache.
+    if saw_default_in_dependency {
+      for v in o.violations.iter_mut() {
+        if v.sig.starts_with("C12/cache-changes-") {
+          v.sig = format!("{}/default-export-behind-a-cross-package-star", v.sig);
+        }
+      }
+    }
   }
   o.nontrivial = stale_or_warm;
   o
@@ -387,6 +411,14 @@ pub fn trace(case: &Case) {
         let op = observe(&plain);
         println!("cached: emitted {:?} diagnostics {:?}", oc.emitted.keys().collect::<Vec<_>>(), oc.diagnostics);
         println!("plain: emitted {:?} diagnostics {:?}", op.emitted.keys().collect::<Vec<_>>(), op.diagnostics);
+        if std::env::var("VP_C12_TEXT").is_ok() {
+          for (k, (t, _, _)) in &oc.emitted {
+            println!("--- cached text {k}\n{t}");
+          }
+          for (k, (t, _, _)) in &op.emitted {
+            println!("--- plain text {k}\n{t}");
+          }
+        }
         println!("gets {:?} sets {:?}", cache.gets.borrow(), cache.sets.borrow());
         for (k, item) in cache.items.borrow().iter() {
           println!("cache {k}: deps {:?}", item.dependencies);
